@@ -30,21 +30,28 @@ for prop in props:
         if n == 0:
             continue
         w = max(1, n // units)
-        procs = []
+        import tempfile
+        procs, running = [], []
         for r in range(reps):
-            e = dict(env, VERIF_SLICE=f"0/{w}/0", GOMAXPROCS=str([1, 4, 16][r % 3]))
-            procs.append(subprocess.Popen([binp, "-test.run", "^TestVerif$", "-test.timeout", "0"], env=e,
-                                          cwd=os.path.join(repo, "cmd/gobl"), stdout=subprocess.PIPE, stderr=subprocess.DEVNULL, text=True))
-            if len(procs) >= 16:
-                procs[0].wait()
+            e = dict(env, VERIF_SLICE=f"0/{w}/0", GOMAXPROCS=str([1, 4, 16][r % 3]), VERIF_NO_PEER="1")
+            tf = tempfile.TemporaryFile(mode="w+", dir=env["VERIF_SCRATCH"])
+            pr = subprocess.Popen([binp, "-test.run", "^TestVerif$", "-test.timeout", "0"], env=e,
+                                  cwd=os.path.join(repo, "cmd/gobl"), stdout=tf, stderr=subprocess.DEVNULL, text=True)
+            procs.append((pr, tf))
+            running.append(pr)
+            while len(running) >= 16:
+                running.pop(0).wait()
         results = []
-        for p in procs:
-            o, _ = p.communicate()
+        for pr, tf in procs:
+            pr.wait()
+            tf.seek(0)
+            o = tf.read()
+            tf.close()
             rec = {}
             for l in o.splitlines():
                 if l.startswith("@@RES "):
                     j = json.loads(l[6:])
-                    rec[j["run"]] = (j["trace"], j.get("sched", ""), len(j.get("violations") or []), j.get("infra", ""))
+                    rec[j["run"]] = (j["trace"], j.get("sched", ""), len(j.get("violations") or []), j.get("infra", ""), tuple(j.get("outputs") or ()))
             results.append(rec)
         ref = results[0]
         div = collections.Counter()
@@ -55,13 +62,13 @@ for prop in props:
         # history independence: the same units executed with different predecessors in the process
         # (two interleaved sub-slices instead of one slice) must produce the same traces
         for sub in (f"0/{2*w}/0", f"{w}/{2*w}/0"):
-            e = dict(env, VERIF_SLICE=sub, GOMAXPROCS="4")
+            e = dict(env, VERIF_SLICE=sub, GOMAXPROCS="4", VERIF_NO_PEER="1")
             o = subprocess.run([binp, "-test.run", "^TestVerif$", "-test.timeout", "0"], env=e,
                                cwd=os.path.join(repo, "cmd/gobl"), capture_output=True, text=True).stdout
             for l in o.splitlines():
                 if l.startswith("@@RES "):
                     j = json.loads(l[6:])
-                    got = (j["trace"], j.get("sched", ""), len(j.get("violations") or []), j.get("infra", ""))
+                    got = (j["trace"], j.get("sched", ""), len(j.get("violations") or []), j.get("infra", ""), tuple(j.get("outputs") or ()))
                     if j["run"] in ref and ref[j["run"]] != got:
                         div[("history", j["run"])] += 1
         infra = [v[3] for v in ref.values() if v[3]]
